@@ -4,6 +4,8 @@
 
 use serde_json::{json, Value};
 use std::os::unix::process::{CommandExt, ExitStatusExt};
+#[allow(unused_imports)]
+use std::os::unix::process::CommandExt as _;
 use std::path::{Path, PathBuf};
 use std::process::{Command, Stdio};
 use std::sync::atomic::{AtomicU64, Ordering};
@@ -203,6 +205,16 @@ pub const CPU_LIMIT_S: u64 = 20;
 
 static SCRATCH_SEQ: AtomicU64 = AtomicU64::new(0);
 
+/// Called once at orchestrator start-up: limits that children inherit.
+pub fn init_process_limits() {
+    unsafe {
+        let stack = RLimit { cur: 8 << 20, max: 8 << 20 };
+        setrlimit(RLIMIT_STACK, &stack);
+        let core = RLimit { cur: 0, max: 0 };
+        setrlimit(RLIMIT_CORE, &core);
+    }
+}
+
 pub fn scratch_root() -> PathBuf {
     PathBuf::from(format!("/dev/shm/fmlsim-{}", std::process::id()))
 }
@@ -243,6 +255,7 @@ pub fn run_child(cwd: &Path, c: &Child) -> ChildResult {
         cmd.env("LD_PRELOAD", shim_path());
         cmd.env("FMLSIM_SEED", s.seed.to_string());
         cmd.env("FMLSIM_TRACE", ".fmlsim-trace");
+        cmd.env("FMLSIM_CPU", CPU_LIMIT_S.to_string());
         if !s.plan.is_empty() {
             cmd.env("FMLSIM_PLAN", &s.plan);
         }
@@ -293,22 +306,11 @@ pub fn run_child(cwd: &Path, c: &Child) -> ChildResult {
         }
     }
     cmd.stderr(Stdio::piped());
-    let aslr = c.aslr;
+    // No pre_exec closure: std then uses posix_spawn (no page-table copy of the orchestrator).
+    // personality is a per-thread attribute inherited by the child; the CPU/AS rlimits are applied by
+    // the shim's constructor inside the child; stack/core rlimits are inherited from the orchestrator.
     unsafe {
-        cmd.pre_exec(move || {
-            if !aslr {
-                personality(ADDR_NO_RANDOMIZE);
-            }
-            let cpu = RLimit { cur: CPU_LIMIT_S, max: CPU_LIMIT_S + 2 };
-            setrlimit(RLIMIT_CPU, &cpu);
-            let stack = RLimit { cur: 8 << 20, max: 8 << 20 };
-            setrlimit(RLIMIT_STACK, &stack);
-            let core = RLimit { cur: 0, max: 0 };
-            setrlimit(RLIMIT_CORE, &core);
-            let mem = RLimit { cur: 12 << 30, max: 12 << 30 };
-            setrlimit(RLIMIT_AS, &mem);
-            Ok(())
-        });
+        personality(if c.aslr { 0 } else { ADDR_NO_RANDOMIZE });
     }
     let mut child = match cmd.spawn() {
         Ok(c) => c,
